@@ -45,7 +45,7 @@ _ns = {"__name__": "__main__"}
 exec(_SRC, _ns)
 
 
-def events(tier, depth_left):
+def events(tier, depth_left, engine="pickle"):
     ev = []
     pts = list(itertools.product(CH["a"], CH["b"]))
     for p in (pts if tier != "quick" else pts[1:3]):
@@ -57,6 +57,9 @@ def events(tier, depth_left):
         ev.append(["sample", [list(x) for x in s], None])
     ev.append(["sample", [[3, 10]], "a"])       # override a's choices
     ev.append(["sample", [[1, 20, 5]], "c"])    # an additional argument
+    if engine == "pickle":
+        # (... whose values are strings, next to the numeric ones)
+        ev.append(["sample", [[2, 10, "t"], [1, 10, "u"]], "c"])
     ev.append(["sample", [[2, 10], [1, 10]], "k"])  # an extra constant
     # the numpy random-choice path: one long-lived Sampler whose choices are
     # plain lists, with and without other lists given for one run only
@@ -73,6 +76,9 @@ def events(tier, depth_left):
     ev.append(["crop", [[1, 20], [2, 10]], 2, True, 4])
     ev.append(["crop", [[1, 10], [1, 10], [2, 10]], 2, True, None])
     ev.append(["crop", [[2, 10]], 1, False, 4])
+    # sown and grown, then sown again (new draws) before anything is reaped,
+    # every batch grown again explicitly
+    ev.append(["crop", [[1, 20], [2, 20]], 1, True, None, "resow"])
     ev.append(["new_session"])
     # a second, long-lived Sampler object on the same file (another session
     # running at the same time; runs alternate, they do not overlap)
@@ -191,10 +197,18 @@ class World:
             if len(got) != n:
                 vio.append(("run-length", "%d rows for n=%d" % (len(got), n)))
         elif kind == "crop":
-            _, seq, bs, live, constk = ev
+            _, seq, bs, live, constk = ev[:5]
+            resow = len(ev) > 5
             n = len(seq)
             builtins._xv_script = {"a": [s[0] for s in seq],
                                    "b": [s[1] for s in seq]}
+            if resow:
+                # (the first sowing draws other values: b and a swapped)
+                first = [[CH["a"][(CH["a"].index(s[0]) + 1) % 2],
+                          CH["b"][(CH["b"].index(s[1]) + 1) % 2]] for s in seq]
+                builtins._xv_script = {
+                    "a": [s[0] for s in first] + [s[0] for s in seq],
+                    "b": [s[1] for s in first] + [s[1] for s in seq]}
             try:
                 # (one long-lived Crop object per batch size is re-used for
                 # every sow cycle, as in a notebook session)
@@ -214,6 +228,10 @@ class World:
                 else:
                     crop.sow_samples(n, verbosity=0, constants={"k": constk})
                 crop.grow_missing(verbosity=0)
+                if resow:
+                    crop.sow_samples(n, verbosity=0)
+                    crop.grow(list(range(1, crop.num_batches + 1)),
+                              verbosity=0)
                 if live:
                     last = crop.reap()
                 else:
@@ -309,7 +327,7 @@ def expand(task):
     out = {"hist": hist, "succ": []}
     if not hist:
         out["init_key"] = w.observe()[1]
-    for n, ev in enumerate(events(tier, 0)):
+    for n, ev in enumerate(events(tier, 0, cfg["engine"])):
         if n:
             w = build(cfg, hist, d)
         tag = "C15|%s|%s" % (cfg["engine"], ev[0] if ev[0] != "sample"
